@@ -198,6 +198,84 @@ def wide_failure(n):
     return None
 
 
+_IFPOS = {}
+
+
+def _ifpos_class():
+    """A user node that the flop counters' map_if_positive handles (criterion, then, else_)."""
+    if "cls" not in _IFPOS:
+        import pymbolic.primitives as p
+
+        @p.expr_dataclass()
+        class IfPositive(p.Expression):
+            criterion: object
+            then: object
+            else_: object
+        _IFPOS["cls"] = IfPositive
+    return _IFPOS["cls"]
+
+
+def ifpos_failure(i):
+    """criterion + max(then, else); the CSE-aware counter charges a shared wrapper where it is
+    met FIRST in the order criterion, then, else."""
+    import pymbolic.primitives as p
+    from pymbolic.mapper.flop_counter import CSEAwareFlopCounter, FlopCounter
+    x, y, z = p.Variable("x"), p.Variable("y"), p.Variable("z")
+    c = p.CommonSubexpression(p.Sum((p.Product((x, y)), p.Product((y, z)), 1)))
+    pool = [c, p.Sum((p.Product((x, x)), y, z)), p.Sum((c, x))]
+    crit, then, else_ = pool[i // 9], pool[(i // 3) % 3], pool[i % 3]
+    expr = p.Sum((_ifpos_class()(crit, then, else_), c))
+
+    def ref(e, seen):
+        if isinstance(e, p.CommonSubexpression):
+            if seen is not None:
+                if e in seen:
+                    return 0
+                seen.add(e)
+            return ref(e.child, seen)
+        if isinstance(e, (p.Sum, p.Product)):
+            return len(e.children) - 1 + sum(ref(ch, seen) for ch in e.children)
+        if isinstance(e, _ifpos_class()):
+            a = ref(e.criterion, seen)
+            b = ref(e.then, seen)
+            c_ = ref(e.else_, seen)
+            return a + max(b, c_)
+        return 0
+    for cls, aware in ((FlopCounter, False), (CSEAwareFlopCounter, True)):
+        got = cls()(expr)
+        want = ref(expr, set() if aware else None)
+        if got != want:
+            return ("flops:if-positive", f"{cls.__name__}: {got} flops for {expr}, an independent "
+                    f"count (criterion first) gives {want}")
+    return None
+
+
+def reconf_failure(fl):
+    """The four include_* settings are plain public attributes: an instance whose attributes are
+    set AFTER construction (a subclass does that after super().__init__()) analyses like one
+    constructed with them."""
+    from pymbolic.mapper.dependency import CachedDependencyMapper, DependencyMapper
+
+    from vf.spec import CSE, Call, Look, Prod, Sub, Sum
+    x, y = V("x"), V("y")
+    spec = Sum(Sub(V("arr"), Sum(x, C(1))), Look(V("obj"), "a"), Call(V("f"), Prod(x, y)),
+               ("CallWithKwargs", V("g"), ("tuple", x), ("map", ("k", y))), CSE(Sum(x, y), "p"))
+    full = dict(fl)
+    want = {sort_maps(w) for w in ref_dependencies(spec, full)}
+    for cls in (DependencyMapper, CachedDependencyMapper):
+        for start in ({}, dict(include_calls=DESCEND), dict(include_calls=False,
+                                                              include_subscripts=False)):
+            m = cls(**start)
+            for k in ("include_subscripts", "include_lookups", "include_calls", "include_cses"):
+                setattr(m, k, fl[k])
+            got = {sort_maps(to_spec(g)) for g in m(build(spec))}
+            if got != want:
+                return ("reconfigured", f"{cls.__name__}({start}) with the attributes then set to "
+                        f"{fl}: {sorted(show(g) for g in got)}, a mapper constructed with them "
+                        f"gives {sorted(show(w) for w in want)}")
+    return None
+
+
 def regconst_failure(phase, what):
     """Fraction constants in the tree; Fraction registered at run time (after the mapper modules
     were imported): while registered every analysis gives its exact result, otherwise the
@@ -366,7 +444,9 @@ class C09(Check):
             "dependency mapper, the node counter and both flop counters; plus all length-3 "
             "one tree with 1100 (thorough 300 / 1100 / 2100) distinct operands that all occur again "
             "(closed-form node count, flops, dependencies); Fraction constants before / while / after "
-            "Fraction is registered as a constant class at run time; "
+            "Fraction is registered as a constant class at run time; instances whose four include_* "
+            "attributes are set after construction (24 settings x 3 starting configurations); a user "
+            "if_positive node with criterion / branches from a pool with a shared wrapper (27); "
             "histories of 10 expressions (the caller adds an element to every set a plain analysis "
             "returns; the include_calls option is an equal, non-interned string) on ONE analysis instance (plain and cached dependency "
             "mapper under 4 flag settings, flop counter), each result compared with a fresh "
@@ -394,6 +474,9 @@ class C09(Check):
             ("wide", lambda: (("wide", n) for n in ((1100,) if tier == "quick"
                                                     else (300, 1100, 2100)))),
             ("registered-constant-class", self.gen_regconst),
+            ("if-positive", lambda: (("ifpos", i) for i in range(27))),
+            ("reconfigured", lambda: (("reconf", i) for i in range(len(FLAGS))
+                                      if FLAGS[i]["composite_leaves"] is None)),
             ("instance-histories", self.gen_histories),
             ("nest3", lambda: (("t", s) for _, s in gen.nest3(N3, N3, N3))),
         ]
@@ -484,6 +567,20 @@ class C09(Check):
             f = wide_failure(item[1])
             if f:
                 r.fail(f[0], f"{f[0]}|n={item[1]}", f[1])
+            return r
+        if item[0] == "ifpos":
+            r.evals += 1
+            r.keys.append(item)
+            f = ifpos_failure(item[1])
+            if f:
+                r.fail(f[0], f"{f[0]}|combination {item[1]}", f[1])
+            return r
+        if item[0] == "reconf":
+            r.evals += 1
+            r.keys.append(item)
+            f = reconf_failure(FLAGS[item[1]])
+            if f:
+                r.fail(f[0], f"{f[0]}|{sorted((k, str(v)) for k, v in FLAGS[item[1]].items())}", f[1])
             return r
         if item[0] == "regconst":
             r.evals += 1
